@@ -25,7 +25,8 @@ pub fn read_stdout(out: &[u8]) -> Option<Parsed> {
             let cells: Vec<&str> = line.trim_end_matches('|').trim_start_matches('|').split('|').map(|c| c.trim()).collect();
             table_lines += 1;
             if table_lines == 1 { p.header = Some(cells.iter().map(|s| s.to_string()).collect()); continue; }
-            if table_lines == 2 && cells.iter().all(|c| !c.is_empty() && c.chars().all(|ch| ch == '-')) { continue; }
+            // a rule (`|-----|-----|`) is not a row, wherever it stands below the header: no cell of a row is made of dashes
+            if table_lines >= 2 && cells.iter().all(|c| !c.is_empty() && c.chars().all(|ch| ch == '-')) { continue; }
             let mut s = String::new();
             let n = cells.len();
             for (i, c) in cells.iter().enumerate() {
